@@ -86,8 +86,43 @@ func SizeClass(t *rapid.T, max int, label string) int {
 
 // Bytes draws a byte string from the LZHUF-relevant families. The returned label names the family.
 func Bytes(t *rapid.T, max int) ([]byte, string) {
-	fam := rapid.IntRange(0, 9).Draw(t, "family")
+	fam := rapid.IntRange(0, 10).Draw(t, "family")
 	switch fam {
+	case 10: // sparse / zero-padded data: long runs of one filler byte with single marker bytes in between
+		n := rapid.IntRange(minInt(200, max), minInt(max, 24000)).Draw(t, "n")
+		fill := rapid.SampledFrom([]byte{0, 0, 0, ' ', 0xff}).Draw(t, "fill")
+		b := make([]byte, n)
+		for i := range b {
+			b[i] = fill
+		}
+		mark := func(i int) {
+			if i >= 0 && i < n {
+				b[i] = fill ^ byte(1+i%7)
+			}
+		}
+		if rapid.Bool().Draw(t, "aligned") {
+			// markers at fixed offsets modulo the 2048 byte window, around the places where the codec's ring
+			// buffer wraps (0, 2047), where its 60 byte look-ahead ends (59..61) and where both meet (117..119)
+			r := rapid.SampledFrom([]int{117, 118, 119, 58, 59, 60, 61, 0, 1, 2046, 2047, -1}).Draw(t, "residue")
+			if r < 0 {
+				r = rapid.IntRange(0, 2047).Draw(t, "residue_any")
+			}
+			for i := r; i < n; i += 2048 {
+				mark(i)
+			}
+			if rapid.Bool().Draw(t, "second_marker") {
+				for i := r + rapid.IntRange(1, 3).Draw(t, "gap"); i < n; i += 2048 {
+					mark(i)
+				}
+			}
+		} else {
+			// a marker every p bytes, p odd, so that the marker offsets walk through the residues modulo 2048
+			p := rapid.SampledFrom([]int{61, 63, 65, 67, 121, 127, 129, 255, 257}).Draw(t, "period")
+			for i := rapid.IntRange(0, p-1).Draw(t, "base"); i < n; i += p {
+				mark(i)
+			}
+		}
+		return b, "sparse"
 	case 0: // fully rapid-drawn small strings (best shrinking)
 		return rapid.SliceOfN(rapid.Byte(), 0, 300).Draw(t, "raw"), "raw"
 	case 1: // small alphabet, rapid-drawn
